@@ -363,7 +363,7 @@ func gen(t *rapid.T) Case {
 }
 
 func TestC03(t *testing.T) {
-	ev.Explore(run, t, "fault", run.N(30, 200), gen, exec)
+	ev.Explore(run, t, "fault", run.N(30, 100), gen, exec)
 	if !run.Quick() {
 		run.SetExhaustive(true)
 		run.Extra("exhaustive_scope", "every crash-point occurrence of the faulty build of each generated scenario")
